@@ -31,7 +31,7 @@ LEVEL_NOTE = ("unaligned datetime queries: any of floor/ceil rounding of each en
               "content must be the model's and the length at most ceil(span)+1; reference slot = round-half-even")
 RULE = ("seeded histories of 1-40 updates x queries; distinct = canonical history JSON; non-trivial = >=5 accepted "
         "updates and (a gap or an eviction or an out-of-order update occurred)")
-REQUIRED_BUCKETS = ["moving-window-fed-a-sample-older-than-its-window", "container:list", "container:numpy", "update-rejected-too-old", "update-out-of-order",
+REQUIRED_BUCKETS = ["infinite-value-written", "moving-window-fed-a-sample-older-than-its-window", "container:list", "container:numpy", "update-rejected-too-old", "update-out-of-order",
                     "jump-beyond-capacity", "off-grid-update", "half-period-tie", "missing-value-written",
                     "gap-split", "eviction", "query-unaligned", "query-same-slot", "fill-value-zero", "query-index-negative",
                     "query-index-out-of-range", "at-index", "at-timestamp", "at-timestamp-unaligned", "at-gap-slot", "at-out-of-range",
@@ -74,6 +74,8 @@ def gen(rng: Any, tier: str, i: int) -> Any:
             val = rng.choice([None, "nan"])
         elif rng.random() < 0.06:
             val = 0.0  # a valid sample whose value is zero (falsy) must be stored like any other
+        elif rng.random() < 0.05:
+            val = rng.choice(["inf", "-inf"])  # an infinite value is a value too (only None and NaN are missing)
         ups.append([cur + off, val])
         slot = _slot(F(cur) + F(str(off)))
         if newest is None or slot >= newest - cap + 1:
@@ -216,6 +218,8 @@ def check(case: dict[str, Any], rec: Any) -> None:
         slot = _slot(F(str(t)))
         v = None if val is None else (float("nan") if val == "nan" else float(val))
         hist.append([t, val])
+        if val in ("inf", "-inf"):
+            rec.bucket("infinite-value-written")
         w0 = {"history": hist[-12:], "cap": cap, "period": period, "update": [t, val], "slot": slot}
         if abs(t - round(t)) > 1e-9:
             rec.bucket("off-grid-update")
